@@ -295,6 +295,8 @@ class Structure(list):
         new_structure = p.parseFile(filename)
         # reinitialize data after successful parsing
         # avoid calling __init__ from a derived class
+        for name in ("title", "pdffit", "xcfg"):
+            self.__dict__.pop(name, None)
         Structure.__init__(self)
         if new_structure is not None:
             self.__dict__.update(new_structure.__dict__)
@@ -330,6 +332,8 @@ class Structure(list):
         new_structure = p.parse(s)
         # reinitialize data after successful parsing
         # avoid calling __init__ from a derived class
+        for name in ("title", "pdffit", "xcfg"):
+            self.__dict__.pop(name, None)
         Structure.__init__(self)
         if new_structure is not None:
             self.__dict__.update(new_structure.__dict__)
